@@ -55,10 +55,15 @@ package snps
 //@ # exactly for the keys whose count/counter reaches the threshold, as <key>,<frequency to 9 decimals>.
 //@ func aggregateWriteOutput
 //@   modifies w, cErr, cWriteDone
+//@   ghost K string = arbitrary
+//@   ghost gOcc int = 0
 //@   loop 1:
 //@     invariant !failed(w) && len(sent(cWriteDone)) == 0 && len(written(w)) == 1 && counter == float64(range_i)
+//@     invariant [c13.count] gOcc >= 0 && in(propMap, K) == (gOcc > 0) && implies(gOcc > 0, propMap[K] == float64(gOcc))
 //@   loop 2:
 //@     invariant !failed(w) && len(sent(cWriteDone)) == 0 && len(written(w)) == 1 && counter == float64(range_i1 + 1)
+//@     invariant [c13.count] gOcc >= 0 && in(propMap, K) == (gOcc > 0) && implies(gOcc > 0, propMap[K] == float64(gOcc))
+//@     do-start gOcc = gOcc + ite(snp == K, 1, 0)
 //@   loop 3:
 //@     invariant !failed(w) && len(sent(cWriteDone)) == 0 && len(written(w)) == 1 && freshslice(order)
 //@     invariant len(order) == range_i && forall(j, 0, range_i, order[j] == mapkey(j) && in(propMap, order[j]))
@@ -67,6 +72,7 @@ package snps
 //@     invariant len(written(w)) == 1 + count(k, 0, range_i, !(propMap[order[k]] / counter < threshold))
 //@   after call:SliceStable#1: assert [keys.permuted] forall(j, 0, len(order), 0 <= sortperm(j) && sortperm(j) < len(order) && in(propMap, order[j]))
 //@   after call:Write#2: assert [row] !(propMap[snp] / counter < threshold) && written(w)[len(written(w))-1] == snp + "," + fmtfloat(propMap[snp] / counter) + "\n"
+//@   after call:Write#2: assert [c13.freq] counter == float64(len(recv(cSNPs))) && implies(snp == K, gOcc > 0 && written(w)[len(written(w))-1] == K + "," + fmtfloat(float64(gOcc) / float64(len(recv(cSNPs)))) + "\n")
 //@   ensures [c19.reported] implies(failed(w), len(sent(cErr)) >= 1 && len(sent(cWriteDone)) == 0)
 //@   before send#3: assert [c13.rows] !failed(w) && len(written(w)) == 1 + count(k, 0, len(order), !(propMap[order[k]] / counter < threshold))
 
